@@ -65,9 +65,9 @@ var checker = &vk.Checker[Case]{
 	ID: "C20",
 	Rule: "random acyclic (type, value) trees built with reflect (StructOf, SliceOf, MapOf, ArrayOf, PtrTo): every scalar kind incl. int, uint, uintptr and complex, half of the payloads full bit patterns (negative, huge, NaN, infinities, -0); strings (empty .. 4200 bytes, log-uniform above 12; ASCII, multi-byte, invalid UTF-8 and NUL content up to the last byte; half of them substrings at odd addresses); arrays (len 0..3, one in three log-uniform up to 96); slices and maps (nil / empty / 1..4 / one in three log-uniform up to the node budget of 3000 (thorough: 12000 for one case in eight), long ones from 1..5 element templates used cyclically so that only some elements are nil / empty / long); " +
 		"map keys of every comparable shape: strings, every scalar kind (bool, ints under a random mask, floats, complex), arrays and structs of keys, pointers (one nil), interface{} and method-carrying interfaces holding ten / six comparable dynamic types, defined types - distinct by construction (ordinal in every leaf, checked after building); " +
-		"pointers (nil / to a fresh value; a class with two pointers to one pointee); interface{} and error / fmt.Stringer / a local interface as field and element types (nil / holding any generated value resp. one of 8 implementing types incl. typed nil pointers); 32 defined types (every scalar kind, time.Duration, string, slices, map, array, pointer, interface, struct; some with methods); structs with 0..4 fields or (one in three) up to 48 fields, hand-declared named structs with unexported fields, structs with embedded fields (a struct, a nil / non-nil pointer to a struct beside a shadowing field, two levels, an interface, a defined string, a blank field), two different local struct types that print the same type name, and structs whose slices are overlapping views of one backing array; one case in ten a spine of 5..40 (thorough 100) nested pointers / slices / arrays / structs / map values / interfaces; top-level nil. " +
+		"pointers (nil / to a fresh value; a class with two pointers to one pointee); interface{} and error / fmt.Stringer / a local interface as field and element types (nil / holding any generated value resp. one of 8 implementing types incl. typed nil pointers); 32 defined types (every scalar kind, time.Duration, string, slices, map, array, pointer, interface, struct; some with methods); structs with 0..4 fields or (one in three) up to 48 fields, hand-declared named structs with unexported fields, structs with embedded fields (a struct, a nil / non-nil pointer to a struct beside a shadowing field, two levels, an interface, a defined string; every field named, none blank), two different local struct types that print the same type name, and structs whose slices are overlapping views of one backing array; one case in ten a spine of 5..40 (thorough 100) nested pointers / slices / arrays / structs / map values / interfaces; top-level nil. " +
 		"Oracle by construction: the builder returns the expected size (widths from a fixed 64-bit table, headers 16/24/8/8/16 once per string/slice/map/pointer/interface node, arrays/structs the plain sum). " +
-		"size.Of(v) == expected, no panic, and the size on the first line of Stat(v, depth, maxItem[, Opt]) == expected: depth 0 (header line alone) or positive, maxItem positive, no option / Opt{} (number after the last ': ') / Opt{AvgOf > 0} with AvgUnit 0, 1/8 or 1 (first token after the last ': '; the average behind it is not judged). Grid: every scalar kind alone and inside a struct, slice, array, map value, pointer, interface, each with every Stat argument shape; 16 payload patterns per kind; every key shape; every defined type and interface implementation in every position; sweeps over 2^k-1, 2^k, 2^k+1 and two or three (thorough: six to ten) seed-dependent sizes per octave for slice lengths (to 2^13, thorough 2^17; 12 element types), array lengths (to 1100), field counts (to 300), map sizes (to 2^10, thorough 2^12; 12 key types), string lengths (to 2^14, thorough 2^17) and 5..64 (thorough 200) nesting levels per wrapper kind. Non-trivial: a header-carrying kind nested inside another header-carrying kind. Distinct by hash of the case.",
+		"size.Of(v) == expected, no panic, and the size on the first line of Stat(v, depth, maxItem[, Opt]) == expected: depth 0 (header line alone) or positive, maxItem positive, no option / Opt{} / Opt{AvgOf > 0} with AvgUnit 0, 1/8 or 1; the line is accepted when the expected size is the first token after its last ': ' or the last run of decimal digits on it (the layout of the line and the average behind the size are not judged). Grid: every scalar kind alone and inside a struct, slice, array, map value, pointer, interface, each with every Stat argument shape; 16 payload patterns per kind; every key shape; every defined type and interface implementation in every position; sweeps over 2^k-1, 2^k, 2^k+1 and two or three (thorough: six to ten) seed-dependent sizes per octave for slice lengths (to 2^13, thorough 2^17; 12 element types), array lengths (to 1100), field counts (to 300), map sizes (to 2^10, thorough 2^12; 12 key types), string lengths (to 2^14, thorough 2^17) and 5..64 (thorough 200) nesting levels per wrapper kind. Non-trivial: a header-carrying kind nested inside another header-carrying kind. Distinct by hash of the case.",
 	Check:    check,
 	Classify: classify,
 }
@@ -649,25 +649,53 @@ func check(c Case) *vk.Failure {
 		return f
 	}
 	first := strings.SplitN(st, "\n", 2)[0]
-	k := strings.LastIndex(first, ": ")
+	// The statement fixes the number, not the layout of the line: the line is accepted when the expected
+	// size is the number after its last ": " (today's "<type>: <size>[ /n = <average>]") OR the last run
+	// of decimal digits on the line (e.g. "<type>: <size> bytes", "<type> = <size>").
+	after, okA := numAfterColon(first)
+	last, okL := lastDigitRun(first)
+	if (okA && after == want) || (okL && last == want) {
+		return nil
+	}
+	if !okA && !okL {
+		return vk.Failf("stat-format", "first line of Stat(depth %d, maxItem %d, opts %+v) carries no number: %q", depth, maxItem, opts, first)
+	}
+	n := after
+	if !okA {
+		n = last
+	}
+	return vk.Failf("stat", "first line of Stat(%s value, %d, %d, %+v) reports %d, want %d (line %q)", typ, depth, maxItem, opts, n, want, first)
+}
+
+// numAfterColon reads the first blank-separated token after the last ": " of the line as a decimal number.
+func numAfterColon(line string) (int, bool) {
+	k := strings.LastIndex(line, ": ")
 	if k < 0 {
-		return vk.Failf("stat-format", "first line of Stat has no ': ': %q", first)
+		return 0, false
 	}
-	num := strings.TrimSpace(first[k+2:])
-	if c.Opt >= 2 {
-		// "<type>: <size> /n = <average>": the size is the first token after the last ": "
-		if f := strings.Fields(num); len(f) > 0 {
-			num = f[0]
-		}
+	f := strings.Fields(line[k+2:])
+	if len(f) == 0 {
+		return 0, false
 	}
-	n, err := strconv.Atoi(num)
-	if err != nil {
-		return vk.Failf("stat-format", "first line of Stat(depth %d, maxItem %d, opts %+v) does not carry the size as a number after its last ': ': %q", depth, maxItem, opts, first)
+	n, err := strconv.Atoi(f[0])
+	return n, err == nil
+}
+
+// lastDigitRun reads the last maximal run of decimal digits of the line.
+func lastDigitRun(line string) (int, bool) {
+	e := len(line)
+	for e > 0 && (line[e-1] < '0' || line[e-1] > '9') {
+		e--
 	}
-	if n != want {
-		return vk.Failf("stat", "first line of Stat(%s value, %d, %d, %+v) reports %d, want %d (line %q)", typ, depth, maxItem, opts, n, want, first)
+	b := e
+	for b > 0 && line[b-1] >= '0' && line[b-1] <= '9' {
+		b--
 	}
-	return nil
+	if b == e {
+		return 0, false
+	}
+	n, err := strconv.Atoi(line[b:e])
+	return n, err == nil
 }
 
 func header(t T) bool {
@@ -1045,6 +1073,20 @@ func genValue(t *rapid.T, ty T, depth int, budget int) V {
 			if n > 4 {
 				k = 1 + gen.Uniform(t, 5, "ntempl")
 				v.Rep = n
+			}
+			if n > 4 && gen.Chance(t, 1, 3, "sparse") {
+				// a sparse slice: one live element per period of 2..12, all the others nil / empty (a walk that
+				// tests blocks of elements for "all nil" before descending)
+				k = 2 + gen.Uniform(t, 11, "period")
+				hot := gen.Uniform(t, k, "hot")
+				for i := 0; i < k; i++ {
+					if i == hot {
+						v.Elems = append(v.Elems, genValue(t, *ty.Elem, depth-1, budget/n))
+					} else {
+						v.Elems = append(v.Elems, V{Nil: true})
+					}
+				}
+				break
 			}
 			for i := 0; i < k; i++ {
 				v.Elems = append(v.Elems, genValue(t, *ty.Elem, depth-1, budget/n))
@@ -1495,6 +1537,23 @@ func TestGrid(t *testing.T) {
 		for j, w := range []T{{K: "slice", Elem: &it}, {K: "array", Elem: &it, Len: 17}, {K: "map", Key: tp("string"), Elem: &it}, {K: "map", Key: &it, Elem: &it}} {
 			for _, rep := range []int{0, 3, 17, 50} {
 				checker.Run(t, statVariant(Case{T: w, V: V{Elems: vs, Keys: []V{{Len: 3, I: 1}, {Len: 8, I: 2}}, Rep: rep}, Class: "grid-iface-methods"}, i+j+rep))
+			}
+		}
+	}
+
+	// ---- sparse containers: exactly one live element in every period of 2..9 elements, at every position of the period
+	for pi, et := range []T{{K: "ptr", Elem: tp("int32")}, {K: "slice", Elem: tp("uint8")}, {K: "iface"}, {K: "map", Key: tp("string"), Elem: tp("int8")}, {K: "string"}} {
+		et := et
+		for period := 2; period <= 9; period++ {
+			for hot := 0; hot < period; hot++ {
+				elems := make([]V, period)
+				for i := range elems {
+					elems[i] = V{Nil: true}
+				}
+				elems[hot] = V{I: 7, Len: 3, Elems: []V{{I: 1}, {I: 2}, {I: 3}}, Keys: []V{{Len: 1}, {Len: 2}, {Len: 3}}}
+				for _, rep := range []int{period, 2*period + 1, 5 * period} {
+					checker.Run(t, statVariant(Case{T: T{K: "slice", Elem: &et}, V: V{Rep: rep, Elems: elems}, Class: "grid-sparse"}, pi+period+hot+rep))
+				}
 			}
 		}
 	}
